@@ -194,37 +194,41 @@ def tsL (φ : DNode → Nat → Nat → Nat) : DList → Nat → Nat → Nat
 end
 
 mutual
-theorem sumN (T : Array PNode) (f : Nat → Nat) (φ : DNode → Nat → Nat → Nat)
-    (H : ∀ d' g b', LayN T d' g b' → gW d' = true → f g = φ d' g b') :
-    ∀ (d : DNode) (idx base : Nat), LayN T d idx base → gW d = true →
+theorem sumN (T : Array PNode) (f : Nat → Nat) (φ : DNode → Nat → Nat → Nat) (hi : Nat)
+    (H : ∀ d' g b', LayN T d' g b' → gW d' = true → b' + descT d' ≤ hi → f g = φ d' g b') :
+    ∀ (d : DNode) (idx base : Nat), LayN T d idx base → gW d = true → base + descT d ≤ hi →
       f idx + isum base (descT d) f = tsN φ d idx base
-  | .ival i, idx, base, hl, hw => by simp [descT, isum_zero, tsN, H _ _ _ hl hw]
-  | .create i ch, idx, base, hl, hw => by
-    have h0 := H _ _ _ hl hw
+  | .ival i, idx, base, hl, hw, hb => by simp [descT, isum_zero, tsN, H _ _ _ hl hw hb]
+  | .create i ch, idx, base, hl, hw, hb => by
+    have h0 := H _ _ _ hl hw hb
     simp only [LayN] at hl
     simp only [gW, Bool.and_eq_true] at hw
-    have ih := sumN T f φ H ch base (base + 1) hl.2.2.2 hw.2
+    simp only [descT] at hb
+    have ih := sumN T f φ hi H ch base (base + 1) hl.2.2.2 hw.2 (by omega)
     simp only [descT, tsN]
     rw [Nat.add_comm 1, isum_succ_left, h0]
     omega
-  | .group i ds, idx, base, hl, hw => by
-    have h0 := H _ _ _ hl hw
+  | .group i ds, idx, base, hl, hw, hb => by
+    have h0 := H _ _ _ hl hw hb
     simp only [LayN] at hl
     simp only [gW, Bool.and_eq_true] at hw
-    have ih := sumL T f φ H ds base (base + ds.length) hl.2.2.2.2 hw.2
+    simp only [descT] at hb
+    rw [descL_eq] at hb
+    have ih := sumL T f φ hi H ds base (base + ds.length) hl.2.2.2.2 hw.2 (by omega)
     simp only [descT, tsN]
     rw [descL_eq, isum_add, h0]
     omega
-theorem sumL (T : Array PNode) (f : Nat → Nat) (φ : DNode → Nat → Nat → Nat)
-    (H : ∀ d' g b', LayN T d' g b' → gW d' = true → f g = φ d' g b') :
-    ∀ (ds : DList) (k base : Nat), LayL T ds k base → gWL ds = true →
+theorem sumL (T : Array PNode) (f : Nat → Nat) (φ : DNode → Nat → Nat → Nat) (hi : Nat)
+    (H : ∀ d' g b', LayN T d' g b' → gW d' = true → b' + descT d' ≤ hi → f g = φ d' g b') :
+    ∀ (ds : DList) (k base : Nat), LayL T ds k base → gWL ds = true → base + descS ds ≤ hi →
       isum k ds.length f + isum base (descS ds) f = tsL φ ds k base
-  | .nil, _, _, _, _ => by simp [DList.length, descS, isum_zero, tsL]
-  | .cons d r, k, base, hl, hw => by
+  | .nil, _, _, _, _, _ => by simp [DList.length, descS, isum_zero, tsL]
+  | .cons d r, k, base, hl, hw, hb => by
     simp only [LayL] at hl
     simp only [gWL, Bool.and_eq_true] at hw
-    have ih1 := sumN T f φ H d k base hl.1 hw.1
-    have ih2 := sumL T f φ H r (k + 1) (base + descT d) hl.2 hw.2
+    simp only [descS] at hb
+    have ih1 := sumN T f φ hi H d k base hl.1 hw.1 (by omega)
+    have ih2 := sumL T f φ hi H r (k + 1) (base + descT d) hl.2 hw.2 (by omega)
     simp only [DList.length, descS, tsL]
     rw [isum_succ_left, isum_add]
     omega
@@ -232,11 +236,13 @@ end
 
 /-- the sum over all slots of a laid-out DAG -/
 theorem sum_all (T : Array PNode) (f : Nat → Nat) (φ : DNode → Nat → Nat → Nat)
-    (H : ∀ d' g b', LayN T d' g b' → gW d' = true → f g = φ d' g b')
+    (H : ∀ d' g b', LayN T d' g b' → gW d' = true → b' + descT d' ≤ T.size → f g = φ d' g b')
     (d : DNode) (hl : LayN T d 0 1) (hn : T.size = 1 + descT d) (hw : gW d = true) :
     rsum T.size f = tsN φ d 0 1 := by
-  rw [rsum_eq_isum, hn, Nat.add_comm 1, isum_succ_left]
-  exact sumN T f φ H d 0 1 hl hw
+  rw [rsum_eq_isum]
+  conv => lhs; rw [hn]
+  rw [Nat.add_comm 1, isum_succ_left]
+  exact sumN T f φ T.size H d 0 1 hl hw (by omega)
 
 /-! ### sums over the children slots = sums over the child list -/
 
